@@ -45,11 +45,16 @@ Definition unclassified (effs : list eff) : list nat :=
   filter (fun k => match classify effs k with None => true | _ => false end) (seq 0 (S (length effs))).
 
 (* the unsafe window recorded as known finding D2: state.increment or nested_samples.append has
-   happened (or started), insertion_indices.append has not                                        *)
-Definition in_known_window (a : abs) : bool := (dSt a || dDe a) && negb (dAi a).
+   happened (or started), insertion_indices.append has not - and, once the new point has been
+   WRITTEN, recording its index is the very next effect.  Any further statement executed in the
+   state "new point written, index not recorded" is a boundary the recorded finding does not cover
+   (it is consistent on the unchanged tree).                                                       *)
+Definition is_append_idx (e : eff) : bool := match e with AppendIdx => true | _ => false end.
+Definition in_known_window (effs : list eff) (k : nat) (a : abs) : bool :=
+  (dSt a || dDe a) && negb (dAi a) && (negb (dWr a) || is_append_idx (nth k effs Skip)).
 Definition outside_known_window (effs : list eff) : list nat :=
   filter (fun k => match delta effs k with
-                   | Some a => negb (balanced a) && negb (in_known_window a)
+                   | Some a => negb (balanced a) && negb (in_known_window effs k a)
                    | None => false end)
          (seq 0 (S (length effs))).
 
@@ -176,6 +181,33 @@ Definition no_swallow (table : list xentry) : bool := forallb (fun e => negb (in
    it terminates with the handler's exit code only if the exit reaches the top *)
 Definition process_exit {S} (w : hworld S) (path : list xentry) : option Z :=
   match propagate path 0 with Exits => exit_code w | SwallowedAt _ => None end.
+
+(* ---- which sampler's handler is installed --------------------------------------------------- *)
+(* FlowSampler.__init__ registers self.safe_exit for the three signals.  Several FlowSamplers may be
+   created one after the other in one process; the handler that runs is whatever the table holds.
+   One [reg] per signal.signal(sig, self.safe_exit) call; [r_cond] = the call sits under a condition
+   other than `if signal_handling` (e.g. "only when the current handler is a default one").       *)
+Inductive sig := STERM | SINT | SALRM.
+Definition sig_eqb (a b : sig) : bool :=
+  match a, b with STERM, STERM | SINT, SINT | SALRM, SALRM => true | _, _ => false end.
+Record reg := mkreg { r_sig : sig; r_cond : bool }.
+(* None = Python's default handler, Some i = safe_exit of the i-th sampler created *)
+Definition htable := sig -> option nat.
+(* a conditional registration is modelled by its worst case: it only fires on a default handler *)
+Definition install (i : nat) (t : htable) (r : reg) : htable :=
+  fun s => if sig_eqb s (r_sig r)
+           then (if r_cond r then (match t s with None => Some i | Some j => Some j end) else Some i)
+           else t s.
+Definition construct (regs : list reg) (t : htable) (i : nat) : htable := fold_left (install i) regs t.
+(* n samplers created one after the other (0 .. n-1), starting from the default handlers *)
+Definition after_samplers (regs : list reg) (n : nat) : htable :=
+  fold_left (construct regs) (seq 0 n) (fun _ => None).
+Definition regs_for (regs : list reg) (s : sig) : list reg := filter (fun r => sig_eqb (r_sig r) s) regs.
+(* the checker: every signal has at least one registration and none of them is conditional *)
+Definition regs_ok (regs : list reg) : bool :=
+  forallb (fun s => negb (length (regs_for regs s) =? 0)%nat && forallb (fun r => negb (r_cond r)) (regs_for regs s))
+          [STERM; SINT; SALRM].
+Definition regs_today : list reg := [mkreg STERM false; mkreg SINT false; mkreg SALRM false].
 
 (* ---- ImportanceNestedSampler.checkpoint ------------------------------------------------------ *)
 Inductive ieff :=
